@@ -331,6 +331,93 @@ def apply_R12(chunk, log, where):
     return n
 
 
+def apply_R3(chunk, names, log, where):
+    """R3: `value_null!(ARGS)` (and the other diagnostic-message macros in `names`) with a non-empty
+    argument list -> `value_null!()`: the diagnostic message (a format! of Display values) is dropped."""
+    n = 0
+    pos = 0
+    while True:
+        t = chunk.text()
+        cls = rsscan.classify(t)
+        m = None
+        for mm in re.finditer(r'\b(' + '|'.join(names) + r')!\s*\(', t):
+            if mm.start() < pos or cls[mm.start()] != rsscan.CODE:
+                continue
+            m = mm
+            break
+        if m is None:
+            break
+        depth = 0
+        j = m.end() - 1
+        while j < len(t):
+            if cls[j] == rsscan.CODE:
+                if t[j] == '(':
+                    depth += 1
+                elif t[j] == ')':
+                    depth -= 1
+                    if depth == 0:
+                        break
+            j += 1
+        args = t[m.end():j]
+        if args.strip() == '' and m.group(1) == 'value_null':
+            pos = j + 1
+            continue
+        old_txt = t[m.start():j + 1]
+        new_txt = 'value_null!()'
+        chunk.replace_span(m.start(), j + 1, new_txt, 'R3')
+        log.add('R3', where, old_txt, new_txt)
+        pos = m.start() + len(new_txt)
+        n += 1
+    return n
+
+
+CLOSURE_RE = re.compile(r'Box::new\(move \|(\w+): &Scope\| \{')
+
+
+def lift_closure(chunk, index, name, log, where, extra_params=None, ret_type='Value'):
+    """R4: the block of the index-th `Box::new(move |scope: &Scope| { .. })` closure of a build_* function
+    becomes the body of `pub fn name(..) -> Value`. Leading `let v = ev(scope);` statements (operand
+    evaluation through captured sub-evaluators) become parameters `v: Value`. Everything else of the
+    enclosing function (closure construction, boxing, captured evaluators) is dropped."""
+    t = chunk.text()
+    cls = rsscan.classify(t)
+    occ = [m for m in CLOSURE_RE.finditer(t) if cls[m.start()] == rsscan.CODE]
+    if index >= len(occ):
+        raise ExtractError('R4: closure #%d not found in %s (found %d)' % (index, where, len(occ)))
+    m = occ[index]
+    scope_name = m.group(1)
+    open_pos = m.end() - 1
+    src = rsscan.Source('<chunk>', t)
+    close_pos = src.match_brace(open_pos)
+    li0 = chunk.line_index(open_pos)
+    li1 = chunk.line_index(close_pos)
+    if li1 <= li0:
+        raise ExtractError('R4: single-line closure in %s not supported' % where)
+    body = chunk.lines[li0 + 1:li1]
+    params = []
+    k = 0
+    while k < len(body):
+        st = body[k].text.strip()
+        if st == '' or st.startswith('//'):
+            k += 1
+            continue
+        mm = re.fullmatch(r'let (mut )?(\w+) = (\w+)\(' + re.escape(scope_name) + r'\)(?: as Value)?;', st)
+        if not mm:
+            break
+        params.append((mm.group(2), bool(mm.group(1)), mm.group(3)))
+        k += 1
+    rest = body[k:]
+    plist = ', '.join('%s%s: Value' % ('mut ' if mut else '', v) for (v, mut, _) in params)
+    if extra_params:
+        plist = ', '.join([plist] + list(extra_params)) if plist else ', '.join(extra_params)
+    hdr_origin = ('rw', 'R4', chunk.lines[li0].origin)
+    new_lines = [Line('pub fn %s(%s) -> %s {' % (name, plist, ret_type), hdr_origin)] + rest + [Line('}', ('rw', 'R4', chunk.lines[li1].origin))]
+    log.add('R4', where, 'closure #%d of %s: operands %s evaluated by captured evaluators %s' % (index, where, [p[0] for p in params], [p[2] for p in params]),
+            'pub fn %s(%s) -> %s' % (name, plist, ret_type))
+    chunk.lines = new_lines
+    return [p[0] for p in params]
+
+
 def name_return(sig_text, ret):
     """`fn f(..) -> T` => `fn f(..) -> (ret: T)`; sig_text is from 'fn' up to (excluding) body '{'."""
     cls = rsscan.classify(sig_text)
@@ -425,6 +512,8 @@ def build_fn_chunk(chunk, fspec, fnkey, built, cover, relwhere):
             strip_macro_stmt(chunk, r[1], log, fnkey)
         elif kind == 'R12':
             apply_R12(chunk, log, fnkey)
+        elif kind == 'R3':
+            apply_R3(chunk, r[1] if len(r) > 1 else ['value_null'], log, fnkey)
         elif kind == 'RX':
             # ('RX', rule_name, pattern, repl, count)
             apply_regex_rule(chunk, r[1], r[2], r[3], log, fnkey, count=r[4] if len(r) > 4 else None)
@@ -697,6 +786,16 @@ def build_unit(udef, cover=False):
             else:
                 b.functions.append({'key': key, 'kind': 'item', 'src': relpath, 'lines': [first_line, last_line], 'sha256': sha256(raw)})
             L.extend(chunk.lines)
+        elif kind == 'closure':
+            drop_attr_lines(chunk)
+            fnkey = key
+            lift_closure(chunk, part.get('index', 0), part['name'], b.rewrites, fnkey, part.get('extra_params'), part.get('ret_type', 'Value'))
+            build_fn_chunk(chunk, part, fnkey, b, cover and part.get('cover', True), relpath)
+            first_idx = len(L)
+            L.extend(chunk.lines)
+            b.fn_ranges.append((first_idx, len(L) - 1, fnkey))
+            b.functions.append({'key': fnkey, 'kind': 'fn', 'src': relpath, 'lines': [first_line, last_line], 'sha256': sha256(raw),
+                                'auto_props': part.get('auto_props', []), 'props': part.get('props', []), 'lifted_closure': True})
         elif kind == 'fn':
             drop_attr_lines(chunk)
             fnkey = key
